@@ -327,3 +327,57 @@ func init() {
 		})
 	}
 }
+
+func init() {
+	// ctxhttp.Do(ctx, client, req): the transport is the seam; redirects, cookies and the
+	// connection machinery of net/http are outside the model.
+	reg("golang.org/x/net/context/ctxhttp.Do", func(fr *frame, fn *ssa.Function, args []value) value {
+		in := fr.in
+		in.P.noteModelName("ctxhttp.Do(ctx, client, req) = client.Transport.RoundTrip(req), then ctx.Err() if the round trip failed and the context is done")
+		ctx := args[0].(iface)
+		cp, _ := args[1].(*value)
+		if cp == nil {
+			panic(unsupported("ctxhttp.Do with the default HTTP client"))
+		}
+		ct := deref(fn.Signature.Params().At(1).Type())
+		tr := (*cp).(structure)[fieldIndex(ct, "Transport")].(iface)
+		if tr.t == nil {
+			panic(unsupported("ctxhttp.Do with the default transport"))
+		}
+		// req.WithContext(ctx): the request carries the context
+		rp := args[2].(*value)
+		rt := deref(fn.Signature.Params().At(2).Type())
+		(*rp).(structure)[fieldIndex(rt, "ctx")] = ctx
+		m := in.lookupMethodByName(tr.t, "RoundTrip")
+		res := in.callValue(fr, m, []value{tr.v, rp}, nil).(tuple)
+		if e, ok := res[1].(iface); ok && e.t != nil {
+			cm := in.lookupMethodByName(ctx.t, "Err")
+			cerr := in.callValue(fr, cm, []value{ctx.v}, nil).(iface)
+			if cerr.t != nil {
+				return tuple{in.zero(fn.Signature.Results().At(0).Type()), cerr}
+			}
+			return tuple{in.zero(fn.Signature.Results().At(0).Type()), e}
+		}
+		return tuple{res[0], iface{}}
+	})
+}
+
+func init() {
+	randIn := func(w int) intrinsicFn {
+		return func(fr *frame, fn *ssa.Function, args []value) value {
+			in := fr.in
+			n := args[len(args)-1].(*Term)
+			in.P.noteModelName("math/rand.Intn/Int63n = arbitrary value in [0, n)")
+			v := in.fresh("rand", w)
+			in.ctx.AddPC(in.ts.Cmp(OpUlt, v, n))
+			return v
+		}
+	}
+	reg("math/rand.Intn", randIn(64))
+	reg("math/rand.Int63n", randIn(64))
+	reg("math/rand.Int31n", randIn(32))
+	reg("(*math/rand.Rand).Intn", randIn(64))
+	reg("(*math/rand.Rand).Int63n", randIn(64))
+	reg("math/rand/v2.IntN", randIn(64))
+	reg("math/rand/v2.Int64N", randIn(64))
+}
